@@ -198,3 +198,111 @@ Example C06_init_ex :
   derived_deserialize_reader cfg0 hook0 EU EU_ty [x01; x05] = (Ok (VV 1 (VL []), [x05]), 0) /\
   deserialize_variant cfg0 hook0 EI EU_ty [x05] 1 = (Ok (VL [VV 1 (VL []); VN 42], [x05]), 1).
 Proof. repeat split. Qed.
+
+(** * 7. Where-clause inference ([C06_bounds]): generics.rs [FindTyParams] and the where-clauses
+      the three derives build, against the rule of the rustdoc.  Proofs in GenericsFacts.v. *)
+From Borsh Require Import Generics GenericsSamples GenericsFacts.
+
+(** The where-clause of the emitted impl IS the documented one -- same predicates, same order:
+    the item's own where-clause; then, parameter after parameter in the order of the generics, the
+    derive's trait on the parameter when it occurs ([occurs]: written as a type, outside
+    [PhantomData<..>] and type macros) in a field the derive infers from (BorshSerialize /
+    BorshDeserialize / BorshSchema: not skipped; the [Default] list of BorshDeserialize: skipped; in
+    each case not overridden by [bound(..)] resp. [schema(params)]) and on the field types of the form
+    [P::Assoc..] / the [schema(params)] entries filed under it, no type twice; then the user's
+    [bound(serialize|deserialize = "..")] predicates of ALL fields, skipped or not. *)
+Theorem C06_bounds : forall k it, bounds_of k it = documented_bounds k it.
+Proof. exact bounds_documented. Qed.
+Print Assumptions C06_bounds.
+
+(** The visitor marks exactly the declared parameters that occur. *)
+Theorem C06_bounds_visitor : forall t all rel P,
+  mem P (visit_type all rel t) = mem P rel || (mem P all && occurs P t).
+Proof. exact visit_type_occurs. Qed.
+Print Assumptions C06_bounds_visitor.
+
+(** The rule read as membership.  ([sel]/[ex]: which fields are inferred from / their explicit
+    entries, e.g. [infers_ser]/[no_explicit], [infers_default]/[no_explicit], [infers_schema]/[schema_explicit].) *)
+Theorem C06_bounds_param_sound : forall ps sel ex fs P,
+  (forall f, In f fs -> ex f = []) ->
+  In (GParam P) (documented_types ps sel ex fs) ->
+  In P ps /\ exists f, In f fs /\ sel f = true /\ occurs P (gf_ty f) = true.
+Proof. exact param_bounded_sound. Qed.
+Print Assumptions C06_bounds_param_sound.
+
+Theorem C06_bounds_param_complete : forall ps sel ex fs P f,
+  In P ps -> In f fs -> sel f = true -> occurs P (gf_ty f) = true ->
+  exists t, In t (documented_types ps sel ex fs) /\ render t = render (GParam P).
+Proof. exact param_bounded_complete. Qed.
+Print Assumptions C06_bounds_param_complete.
+
+Theorem C06_bounds_provenance : forall ps sel ex fs t,
+  In t (documented_types ps sel ex fs) ->
+  exists P, In P ps /\
+    ((t = GParam P /\ exists f, In f fs /\ sel f = true /\ occurs P (gf_ty f) = true) \/
+     (exists f, In f fs /\ sel f = true /\ assoc_of P (gf_ty f) = true /\ t = gf_ty f) \/
+     (exists f, In f fs /\ In (P, t) (ex f))).
+Proof. exact bounded_provenance. Qed.
+Print Assumptions C06_bounds_provenance.
+
+(** [schema(params = "P => ty")] on a non-skipped field bounds [ty] -- when [P] is a parameter. *)
+Theorem C06_bounds_override : forall it f l P t,
+  In f (all_fields it) -> gf_skip f = false -> gf_schema_params f = Some l -> In (P, t) l ->
+  In P (type_params (gi_params it)) ->
+  exists t', In (WBound t' TrSchema) (bounds_of DSchema it) /\ render t' = render t.
+Proof. exact override_bounded. Qed.
+Print Assumptions C06_bounds_override.
+
+(** The full-strength statement of the rustdoc entry rule, without "[P] is a parameter of the item",
+    is FALSE: a mistyped [order_param] makes the macro drop the entry silently. *)
+Theorem C06_bounds_override_refuted :
+  exists it f P t,
+    In f (all_fields it) /\ gf_skip f = false /\ gf_schema_params f = Some [(P, t)] /\
+    forall p, In p (bounds_of DSchema it) -> render_pred p <> render_pred (WBound t TrSchema).
+Proof. exact override_unknown_param_refuted. Qed.
+Print Assumptions C06_bounds_override_refuted.
+
+(** "adds the bound to any type parameter found in item's fields" read naively (the identifier is
+    written somewhere in a serialized field) is FALSE: [struct S<T: Tr> { a: Vec<T::A> }]. *)
+Theorem C06_bounds_naive_refuted :
+  exists it f P,
+    In f (all_fields it) /\ gf_skip f = false /\ gf_bound_ser f = None /\
+    In P (type_params (gi_params it)) /\ uses P (gf_ty f) = true /\
+    forall p, In p (bounds_of DSer it) -> ~ In P (ident_toks (toks_pred p)).
+Proof. exact naive_rule_refuted. Qed.
+Print Assumptions C06_bounds_naive_refuted.
+
+(** ** the examples of the rustdoc, computed *)
+Example C06_bounds_doc_a :
+  map render_pred (bounds_of DSer doc_a) = ["U : borsh::ser::BorshSerialize"; "V : borsh::ser::BorshSerialize"]%string /\
+  map render_pred (bounds_of DSer doc_a_skip) = ["U : borsh::ser::BorshSerialize"]%string /\
+  map render_pred (bounds_of DDe doc_a_skip) = ["U : borsh::de::BorshDeserialize"; "V : core::default::Default"]%string /\
+  map render_pred (bounds_of DSchema doc_a_skip) = ["U : borsh::BorshSchema"]%string.
+Proof. vm_compute. repeat split. Qed.
+Example C06_bounds_doc_overrides :
+  map render_pred (bounds_of DDe doc_hashmap_skip) = ["U : borsh::de::BorshDeserialize"]%string /\
+  map render_pred (bounds_of DSer doc_hashmap_skip) = ["U : borsh::ser::BorshSerialize"]%string /\
+  map render_pred (bounds_of DSer doc_bound_override) = ["T : BorshSerialize + Ord"; "U : BorshSerialize"]%string /\
+  map render_pred (bounds_of DDe doc_bound_override) = ["T : borsh::de::BorshDeserialize"; "U : borsh::de::BorshDeserialize"]%string.
+Proof. vm_compute. repeat split. Qed.
+(** "derive here figures the bound erroneously as [T: BorshSerialize]"; the unit-test snapshot
+    [generic_associated_type]; [schema(params)] *)
+Example C06_bounds_doc_assoc :
+  map render_pred (bounds_of DSer doc_qualified_assoc)
+    = ["T : TraitName"; "T : borsh::ser::BorshSerialize"; "V : borsh::ser::BorshSerialize"]%string /\
+  map render_pred (bounds_of DSchema snap_assoc)
+    = ["T : TraitName"; "V : borsh::BorshSchema"; "T :: Associated : borsh::BorshSchema"]%string /\
+  map render_pred (bounds_of DSchema doc_schema_params) = ["V : borsh::BorshSchema"]%string /\
+  map render_pred (bounds_of DSchema doc_schema_params_assoc)
+    = ["T : TraitName"; "V : borsh::BorshSchema"; "< T as TraitName > :: Associated : borsh::BorshSchema"]%string.
+Proof. vm_compute. repeat split. Qed.
+(** shapes: array, tuple/reference, fn pointer are searched; PhantomData, type macros are not;
+    a skipped field only counts for [Default] *)
+Example C06_bounds_shapes :
+  map render_pred (bounds_of DSer shapes_struct)
+    = ["A : borsh::ser::BorshSerialize"; "B : borsh::ser::BorshSerialize"; "C : borsh::ser::BorshSerialize"]%string /\
+  map render_pred (bounds_of DDe shapes_struct)
+    = ["A : borsh::de::BorshDeserialize"; "B : borsh::de::BorshDeserialize"; "C : borsh::de::BorshDeserialize";
+       "F : core::default::Default"]%string /\
+  bounds_of DSer phantom_struct = [] /\ bounds_of DDe phantom_struct = [] /\ bounds_of DSchema phantom_struct = [].
+Proof. vm_compute. repeat split. Qed.
